@@ -887,6 +887,12 @@ func (hlv *HybridLogicalVector) UpdateHistory(incomingHLV *HybridLogicalVector) 
 	// CV
 	if incomingHLV.SourceID != "" {
 		hlv.AddVersionToPV(incomingHLV.SourceID, incomingHLV.Version) // CV
+		// If the incoming CV is newer than a merge version held for the same source, the merge versions are stale:
+		// move them to PV so that the incoming CV is recorded rather than dropped.
+		if mvVersion, ok := hlv.MergeVersions[incomingHLV.SourceID]; ok && hlv.SourceID != incomingHLV.SourceID && mvVersion < incomingHLV.Version {
+			hlv.InvalidateMV()
+			hlv.AddVersionToPV(incomingHLV.SourceID, incomingHLV.Version)
+		}
 	}
 
 	invalidateMV := false
